@@ -8,7 +8,6 @@
 use crate::util::{catch, Out};
 use serde::{Deserialize, Serialize};
 use serde_json::{json, Value};
-use specs::error::NoError;
 use specs::prelude::*;
 use specs::saveload::{
     ConvertSaveload, DeserializeComponents, EntityData, MarkedBuilder, Marker, MarkerAllocator, SerializeComponents,
@@ -37,6 +36,24 @@ pub enum RefShape {
     Named { first: Entity, second: Entity, third: Entity },
     Quad(Entity, Entity, Entity, Entity),
 }
+
+/// error of the reference component's conversion: in "fallible" scripts a reference to an entity without
+/// marker makes the conversion fail (instead of panicking like the library's own `Entity` conversion)
+#[derive(Debug)]
+pub enum SlErr {
+    Dangling,
+}
+impl std::fmt::Display for SlErr {
+    fn fmt(&self, f: &mut std::fmt::Formatter<'_>) -> std::fmt::Result {
+        write!(f, "reference to an entity without marker")
+    }
+}
+impl From<std::convert::Infallible> for SlErr {
+    fn from(x: std::convert::Infallible) -> SlErr {
+        match x {}
+    }
+}
+thread_local!(static FALLIBLE: std::cell::Cell<bool> = std::cell::Cell::new(false));
 
 #[derive(Clone, Debug)]
 pub enum SRefs {
@@ -106,12 +123,15 @@ where
     for<'de> M: Deserialize<'de>,
 {
     type Data = SRefsData<M>;
-    type Error = NoError;
+    type Error = SlErr;
 
     fn convert_into<F>(&self, mut ids: F) -> Result<Self::Data, Self::Error>
     where
         F: FnMut(Entity) -> Option<M>,
     {
+        if FALLIBLE.with(|f| f.get()) && self.list().iter().any(|&e| ids(e).is_none()) {
+            return Err(SlErr::Dangling);
+        }
         match self {
             SRefs::Shape(sh) => Ok(SRefsData::Shape(<RefShape as ConvertSaveload<M>>::convert_into(sh, &mut ids).unwrap())),
             SRefs::Long(es) => {
@@ -244,7 +264,7 @@ fn recs_js<M: MarkerJs>(recs: &Recs<M>) -> Value {
     json!(v)
 }
 
-fn save<M: MarkerJs + Serialize>(w: &World, rec: bool, fmt: &str) -> String
+fn save<M: MarkerJs + Serialize>(w: &World, rec: bool, fmt: &str) -> Result<String, String>
 where
     for<'de> M: Deserialize<'de>,
 {
@@ -257,13 +277,13 @@ where
             if rec {
                 let mut ms = w.write_storage::<M>();
                 let mut al = w.write_resource::<M::Allocator>();
-                SerializeComponents::<NoError, M>::serialize_recursive(&comps, &ents, &mut ms, &mut al, &mut ser).unwrap();
+                SerializeComponents::<SlErr, M>::serialize_recursive(&comps, &ents, &mut ms, &mut al, &mut ser).map_err(|e| e.to_string())?;
             } else {
                 let ms = w.read_storage::<M>();
-                SerializeComponents::<NoError, M>::serialize(&comps, &ents, &ms, &mut ser).unwrap();
+                SerializeComponents::<SlErr, M>::serialize(&comps, &ents, &ms, &mut ser).map_err(|e| e.to_string())?;
             }
         }
-        String::from_utf8(buf).unwrap()
+        Ok(String::from_utf8(buf).unwrap())
     } else {
         let mut buf = Vec::new();
         {
@@ -271,13 +291,13 @@ where
             if rec {
                 let mut ms = w.write_storage::<M>();
                 let mut al = w.write_resource::<M::Allocator>();
-                SerializeComponents::<NoError, M>::serialize_recursive(&comps, &ents, &mut ms, &mut al, &mut ser).unwrap();
+                SerializeComponents::<SlErr, M>::serialize_recursive(&comps, &ents, &mut ms, &mut al, &mut ser).map_err(|e| e.to_string())?;
             } else {
                 let ms = w.read_storage::<M>();
-                SerializeComponents::<NoError, M>::serialize(&comps, &ents, &ms, &mut ser).unwrap();
+                SerializeComponents::<SlErr, M>::serialize(&comps, &ents, &ms, &mut ser).map_err(|e| e.to_string())?;
             }
         }
-        String::from_utf8(buf).unwrap()
+        Ok(String::from_utf8(buf).unwrap())
     }
 }
 
@@ -310,10 +330,10 @@ where
     let mut comps = (w.write_storage::<SA>(), w.write_storage::<SB>(), w.write_storage::<SRefs>());
     if fmt == "ron" {
         let mut de = ron::de::Deserializer::from_str(data).unwrap();
-        DeserializeComponents::<NoError, M>::deserialize(&mut comps, &ents, &mut ms, &mut al, &mut de).unwrap();
+        DeserializeComponents::<SlErr, M>::deserialize(&mut comps, &ents, &mut ms, &mut al, &mut de).unwrap();
     } else {
         let mut de = serde_json::Deserializer::from_str(data);
-        DeserializeComponents::<NoError, M>::deserialize(&mut comps, &ents, &mut ms, &mut al, &mut de).unwrap();
+        DeserializeComponents::<SlErr, M>::deserialize(&mut comps, &ents, &mut ms, &mut al, &mut de).unwrap();
     }
 }
 
@@ -333,6 +353,8 @@ where
     <M as Component>::Storage: Default,
 {
     let nworlds = script["worlds"].as_u64().unwrap_or(2) as usize;
+    let fallible = script["fallible"].as_bool().unwrap_or(false);
+    FALLIBLE.with(|f| f.set(fallible));
     let proto = M::Allocator::default();
     let mut worlds: Vec<World> = (0..nworlds).map(|_| new_world::<M>(&proto)).collect();
     // what happens in another world must not matter: in the further processes of the determinism check
@@ -504,6 +526,13 @@ where
                         };
                     }
                 }
+                "unmark" => {
+                    // the marker component is removed by hand; the allocator is not told
+                    if let Some(e) = h(&op["h"], &handles) {
+                        let _ = w.write_storage::<M>().remove(e);
+                        ev = json!({"op":"Unmark","w":wi+1,"h":hj(e),"panic":""});
+                    }
+                }
                 "delete" => {
                     if let Some(e) = h(&op["h"], &handles) {
                         let _ = w.delete_entity(e);
@@ -564,11 +593,19 @@ where
                 "save" => {
                     let rec = op["rec"].as_bool().unwrap_or(false);
                     let fmt = op["fmt"].as_str().unwrap_or("json").to_string();
-                    ev = json!({"op":"Save","w":wi+1,"rec":rec,"fmt":fmt,"data":[],"panic":""});
-                    let s = save::<M>(w, rec, &fmt);
-                    let recs: Recs<M> = parse::<M>(&s, &fmt);
-                    ev["data"] = recs_js(&recs);
-                    blobs.push((s, fmt));
+                    ev = json!({"op":"Save","w":wi+1,"rec":rec,"fmt":fmt,"data":[],"err":false,"fallible":fallible,"panic":""});
+                    match save::<M>(w, rec, &fmt) {
+                        Ok(s) => {
+                            let recs: Recs<M> = parse::<M>(&s, &fmt);
+                            ev["data"] = recs_js(&recs);
+                            blobs.push((s, fmt));
+                        }
+                        Err(_) => {
+                            // the serialisation reported an error: nothing was saved (an empty save takes its slot)
+                            ev["err"] = json!(true);
+                            blobs.push((unparse::<M>(&vec![], &fmt), fmt));
+                        }
+                    }
                 }
                 "load" => {
                     let k = op["blob"].as_u64().unwrap_or(0) as usize;
